@@ -1,10 +1,13 @@
 #!/bin/sh
-# usage: evalall.sh ID... ; worktrees are created from /verif/seeded/<ID>/patch.diff on top of /repo HEAD
-for id in "$@"; do
-  echo "=== $id $(date +%T)"
-  wt=/tmp/evalwt-$id
+# Evaluate stored seeded changes: for each <ID> or <ID>-r2 make a scratch worktree of /repo HEAD, apply
+# /verif/seeded/<name>/patch.diff, run the property's check from a private copy of /verif against it, clean up.
+# usage: tools/evalseeded.sh C06 C10-r2 ...
+for name in "$@"; do
+  id=${name%%-*}
+  echo "=== $name $(date +%T)"
+  wt=/tmp/evalwt-$name
   rm -rf $wt; git -C /repo worktree prune; git -C /repo worktree add -q --detach $wt HEAD || continue
-  if ! git -C $wt apply /verif/seeded/$id/patch.diff; then echo "PATCH-DOES-NOT-APPLY $id"; else
+  if ! git -C $wt apply /verif/seeded/$name/patch.diff; then echo "PATCH-DOES-NOT-APPLY $name"; else
     VERIF_SUITE_TIMEOUT=${VERIF_SUITE_TIMEOUT:-240} /verif/tools/evalmut.sh $id $wt 2>&1 | grep -E "^(OK|FAIL|VIOLATION)|broken" | cut -c1-230 | head -8
   fi
   git -C /repo worktree remove --force $wt; rm -rf /tmp/verif-eval-$id
